@@ -57,6 +57,21 @@ def run_case(case, rng):
                 sp.P.pop((de, a_), None)
             sp.acts[de] = ()
             sp.meta["dead_end"] = repr(de)
+    states_only = False
+    if explicit and rep == "subclass_explicit" and rng.random() < 0.35:
+        # the state list is given explicitly, the action list is left to be inferred - from ALL listed states, also
+        # those nothing leads to; such a state gets an action that exists nowhere else
+        rep, states_only = "subclass_explicit_states", True
+        unreachable = [s_ for s_ in sp.states if s_ not in set(G.closure(sp)) and s_ not in sp.flag and sp.acts[s_]]
+        if unreachable:
+            u = rng.choice(unreachable)
+            new_a = "only-here" if sp.meta.get("label_kind") != "int" else 987
+            sp.acts[u] = tuple(sp.acts[u]) + (new_a,)
+            tgt = rng.choice(sp.states)
+            sp.P[(u, new_a)] = [(tgt, 1.0)]
+            sp.kind[(u, new_a)] = "dict"
+            sp.R[(u, new_a, tgt)] = -1.0
+            sp.meta["action_only_in_unreachable_state"] = repr(u)
     case.family = fam
     case.params = dict(rep=rep, gamma=sp.gamma, n=len(sp.states), label_kind=sp.meta.get("label_kind"),
                        ghost=repr(ghost) if ghost is not None else None)
@@ -78,6 +93,11 @@ def run_case(case, rng):
     if explicit:
         case.check(S == list(mdp._state_list), "explicit-state_list-not-kept", repr(S))
         universe = S
+        if states_only:
+            want_a = {a for s_ in S for a in sp.acts[s_]}
+            case.count("inferred_action_lists_on_explicit_states")
+            case.check(set(A) == want_a, "inferred-action_list!=actions-of-listed-states",
+                       lambda: f"{A!r} vs {sorted(map(repr, want_a))}", **facts)
     else:
         case.count("inferred_lists_checked")
         extra = set(S) - set(expected_closure)
@@ -201,7 +221,8 @@ def run_case(case, rng):
                              discount_rate=mdp.discount_rate)
         if explicit:
             m3._state_list = mdp._state_list
-            m3._action_list = mdp._action_list
+            if not states_only:
+                m3._action_list = mdp._action_list
         _same_mdp(case, "QuickTabularMDP-wrapper", mdp, m3, ValueIteration, sp)
         m4 = QuickMDP(next_state_dist=mdp.next_state_dist, reward=mdp.reward, actions=mdp.actions,
                       initial_state_dist=mdp.initial_state_dist(), is_absorbing=mdp.is_absorbing,
